@@ -197,11 +197,17 @@ def _check_acl(platform, texts, skip, ctx, rules=None, distinct=True, acl_type="
         return
     if rules is None:
         rules = [Reader(platform).read_line(ln, acl_type) for ln in texts]
+    text_before, ids_before = acl.line, [o.uuid for o in acl.items]
     try:
         got = acl.shading(skip)
         got_list = acl.shadow_of(skip)
+        again = acl.shading(skip)
     except Exception as ex:  # noqa
         ctx.viol("Acl.shading:exception", case, repr(ex), "report")
+        return
+    if acl.line != text_before or [o.uuid for o in acl.items] != ids_before or again != got:
+        ctx.viol("Acl.shading:query_modifies_the_acl_or_is_not_repeatable", case,
+                 dict(text=acl.line, second=again), dict(text=text_before, first=got))
         return
     want = _spec(rules, lines, skip)
     if distinct:
